@@ -207,7 +207,17 @@ func signature(c tcase, o outcome, why string) string {
 			return ""
 		}
 		for _, k := range []uint{8, 16, 24, 32, 64} {
-			if new(big.Int).Mod(c.ival, pow2(k)).Cmp(got) == 0 {
+			// 2^k + v, give or take the rounding of a fractional input on the float path
+			for _, d := range []int64{0, 1, -1} {
+				w := new(big.Int).Add(c.ival, bi(d))
+				if w.Mod(w, pow2(k)).Cmp(got) == 0 {
+					return kfUnsignedWrap
+				}
+			}
+		}
+		if c.ddl == "MEDIUMINT UNSIGNED" { // uint32(1<<24 + v)
+			w := new(big.Int).Add(pow2(24), c.ival)
+			if w.Mod(w, pow2(32)).Cmp(got) == 0 {
 				return kfUnsignedWrap
 			}
 		}
@@ -220,7 +230,7 @@ func signature(c tcase, o outcome, why string) string {
 			}
 		}
 
-	case floatEdge(c) && c.ddl == "BIGINT" && o.stored && !o.failed && o.norm == "n:-9223372036854775808" && o.warnings == 0:
+	case floatEdge(c) && c.ddl == "BIGINT" && o.stored && !o.failed && o.norm == "n:-9223372036854775808":
 		return kfBigintWrap
 
 	case floatLossy(c) && !floatEdge(c) && o.route != "api" && o.stored && !o.failed && o.norm == viaFloatStored(c):
